@@ -4,8 +4,9 @@
    default / %ordered / %rewrite diff logics, and config trees of any depth and width
    whose sibling rows are distinct ([wf]: what a Python dict guarantees). *)
 From Coq Require Import List String Bool Arith.
-From Annet Require Import Base.Str Base.Tree Model.Rulebook Model.Diff Spec.P_C03 Proofs.DiffBasics
-     Proofs.DiffProofs.
+From Annet Require Import Base.Str Base.Tree Model.Rulebook Model.Diff Model.Order Model.Patch Model.DiffText
+     Spec.P_C03 Spec.P_C03Text Proofs.DiffBasics Proofs.DiffProofs Proofs.DiffTextProofs.
+Require Annet.Gen.Src_vendors.
 Import ListNotations.
 Open Scope string_scope.
 
@@ -13,7 +14,10 @@ Open Scope string_scope.
    present in old and absent from new, AFFECTED/MOVED/UNCHANGED => on both sides), every row the
    rulebook knows is accounted for exactly once on each level (so dropping the ADDED entries
    gives old|R and dropping the REMOVED ones gives new|R, nesting intact), every entry carries
-   the rule and key of its row, and an UNCHANGED entry has only UNCHANGED descendants. *)
+   the rule and key of its row, and an UNCHANGED entry has only UNCHANGED descendants.  The only
+   rows that may be missing from a level of the diff are rows of %rewrite rules, and only when the
+   whole %rewrite group of that level is unchanged at every depth ([rw_unchanged]/[same_t]: same rows
+   with the same rule and key, same order for %ordered and %rewrite rows, recursively). *)
 Theorem C03_lossless :
   forall rmatch rs old new, wf old -> wf new ->
     lossless (annot_f rmatch rs old) (annot_f rmatch rs new) (make_diff rmatch rs old new) = true.
@@ -33,13 +37,30 @@ Theorem C03_ordered_in_new_order :
 Proof. exact diff_order_ok. Qed.
 Print Assumptions C03_ordered_in_new_order.
 
-(* MOVED characterisation (top level of an %ordered group): a surviving row is MOVED iff the
-   prefix of new up to and including it deviates from the same-length prefix of old *)
+(* MOVED characterisation at every depth: below an entry that is itself MOVED every surviving row
+   is MOVED; below any other entry present on both sides, and at the top level, a surviving row of an
+   %ordered rule is MOVED iff the prefix of new up to and including it deviates from the
+   same-length prefix of old *)
+Theorem C03_moved_all_depths :
+  forall rmatch rs old new, wf old -> wf new ->
+    moved_ok (annot_f rmatch rs old) (annot_f rmatch rs new) (make_diff rmatch rs old new) = true.
+Proof. exact diff_moved_all. Qed.
+Print Assumptions C03_moved_all_depths.
+
+(* its top-level part *)
 Theorem C03_moved_iff_prefix_deviates :
   forall rmatch rs old new, wf old -> wf new ->
     moved_ok_top (annot_f rmatch rs old) (annot_f rmatch rs new) (make_diff rmatch rs old new) = true.
 Proof. exact diff_moved_ok. Qed.
 Print Assumptions C03_moved_iff_prefix_deviates.
+
+(* a %rewrite block that is shown is shown as re-entered as a whole: no entry at or below a row of a
+   %rewrite rule is AFFECTED or UNCHANGED *)
+Theorem C03_rewrite_shown_whole :
+  forall rmatch rs old new, wf old -> wf new ->
+    rewrite_whole (annot_f rmatch rs old) (annot_f rmatch rs new) (make_diff rmatch rs old new) = true.
+Proof. exact diff_rewrite_whole. Qed.
+Print Assumptions C03_rewrite_shown_whole.
 
 (* the predicate the check evaluates on the implementation's make_diff outputs holds of the model *)
 Theorem C03_P_holds_of_model :
@@ -57,3 +78,83 @@ Print Assumptions C03_strip_idem.
 Theorem C03_strip_no_unchanged : forall d, forallb no_unchanged_n (strip_unchanged_n d) = true.
 Proof. exact strip_no_unchanged. Qed.
 Print Assumptions C03_strip_no_unchanged.
+
+(* ------------------------------------------------------------------------------------------------
+   The textual views.  [diff_lines F d] models formatter.diff(d) for a formatter with indent,
+   block_begin, block_end, statement_end = F (None = the KeyError raised on an UNCHANGED entry);
+   [parse_signed F] reads a signed, indented listing back (Spec/P_C03Text.v); [sshape_f d] is d
+   minus its UNCHANGED entries with the rule matches forgotten: entries, signs and nesting.
+   Guards: the indent is n >= 1 blanks and the closing word does not start with a blank ([fmt_ok]);
+   rows are non-empty and do not start with a blank ([rows_ok]: every vendor's split strips rows). *)
+
+(* render round trip: the deploy confirmation view read back gives the same entries with the same
+   signs and nesting -- for the plain family (no delimiters), the brace family (" {", "}", ";" or "")
+   and RouterOS ("/"), i.e. for every F with fmt_ok *)
+Theorem C03_render_roundtrip :
+  forall F d, fmt_ok F = true -> forallb no_unchanged_n d = true -> rows_ok (sshape_f d) = true ->
+    exists lines, diff_lines F d = Some lines /\ parse_signed F lines = Some (sshape_f d) /\
+                  shape_f d = Some (sshape_f d).
+Proof. exact read_back_total. Qed.
+Print Assumptions C03_render_roundtrip.
+
+(* hence the confirmation view is injective: two diffs shown by the same lines have the same entries *)
+Theorem C03_render_injective :
+  forall F d1 d2 lines, fmt_ok F = true ->
+    forallb no_unchanged_n d1 = true -> forallb no_unchanged_n d2 = true ->
+    rows_ok (sshape_f d1) = true -> rows_ok (sshape_f d2) = true ->
+    diff_lines F d1 = Some lines -> diff_lines F d2 = Some lines -> sshape_f d1 = sshape_f d2.
+Proof. exact diff_lines_injective. Qed.
+Print Assumptions C03_render_injective.
+
+(* the `annet diff` view: gen_pre_as_diff(make_pre(d)) read back gives, on every level, the entries of
+   d minus UNCHANGED as a multiset ([tperm]: a permutation of the entries of every level) *)
+Theorem C03_pre_render :
+  forall ind d, fmt_ok (plain_fmt ind) = true -> rows_ok (sshape_f d) = true ->
+    exists s', pre_read_back ind d = Some s' /\ tperm s' (sshape_f d).
+Proof. exact pre_render. Qed.
+Print Assumptions C03_pre_render.
+
+(* "minus UNCHANGED" is what strip_unchanged leaves *)
+Theorem C03_shown_is_stripped : forall d, sshape_f (strip_unchanged d) = sshape_f d.
+Proof. exact sshape_strip. Qed.
+Print Assumptions C03_shown_is_stripped.
+
+(* every vendor's formatter parameters (table regenerated from annet/annlib/tabparser.py and
+   annet/vendors on every run) satisfy the guard of the round trip, whatever blank indent the caller passes *)
+Theorem C03_every_vendor_formatter_ok :
+  forallb (fun v => forallb (fun ind => match vendor_tfmt (Src_vendors.v_name v) ind with
+                                        | Some F => fmt_ok F
+                                        | None => false
+                                        end) [" "; "  "; "    "]) Src_vendors.vendors = true.
+Proof. vm_compute. reflexivity. Qed.
+Print Assumptions C03_every_vendor_formatter_ok.
+
+(* ------------------------------------------------------------------------------------------------
+   Non-vacuity of the guards. *)
+Definition ex_match (pat row : string) : option (list string) :=
+  if String.prefix pat row then Some [row] else None.
+Definition ex_attrs (dl : dlogic) : attrs := Attrs "e" LDefault dl false false.
+Definition ex_rs : rset := ([PRule "e %ordered" false (ex_attrs DOrdered) [] []], []).
+Definition ex_old : forest := [("e 1", T []); ("e 2", T []); ("e 3", T [])].
+Definition ex_new : forest := [("e 3", T []); ("e 2", T []); ("e 1", T [])].
+
+(* [wf] is satisfiable with a non-trivial outcome: reversing three rows of an %ordered rule moves all
+   three, the middle one included although it keeps its index *)
+Example C03_wf_nonvacuous :
+  wf ex_old /\ wf ex_new /\
+  map (fun k => (d_op k, d_row k)) (make_diff ex_match ex_rs ex_old ex_new) =
+  [(Moved, "e 3"); (Moved, "e 2"); (Moved, "e 1")].
+Proof. split; [apply wfb_wf; reflexivity|]. split; [apply wfb_wf; reflexivity|]. vm_compute. reflexivity. Qed.
+
+(* the guards of the render theorems are satisfiable for a brace-family formatter and a nested diff
+   with all four signs, and the listing is the expected one *)
+Definition ex_mi : minfo := MI "e" [] (ex_attrs DDefault).
+Definition ex_diff : list dnode :=
+  [DN Affected "a b" ex_mi [DN Added "c" ex_mi []; DN Moved "d" ex_mi [DN Removed "e" ex_mi []]];
+   DN Removed "z" ex_mi []].
+Example C03_render_nonvacuous :
+  fmt_ok (TFmt "    " " {" "}" ";") = true /\ forallb no_unchanged_n ex_diff = true /\
+  rows_ok (sshape_f ex_diff) = true /\ fmt_ok (plain_fmt "  ") = true /\
+  diff_lines (TFmt "    " " {" "}" ";") ex_diff =
+  Some ["  a b {"; "+     c;"; ">     d {"; "-         e;"; ">     }"; "  }"; "- z;"].
+Proof. vm_compute. repeat split; reflexivity. Qed.
